@@ -1,0 +1,90 @@
+//go:build verif
+
+// Contracts for the verifier in /verif (comment-only; compiled only with -tags verif, adds no code).
+package decoder
+
+// ---- C14: the kind shown with a symbol is the kind of the expression written: a traversal is a reference,
+// ---- a literal carries the type of its value, a plain or heredoc string literal is a string, list and object
+// ---- literals are what they are; anything else (an interpolated template, a call, ...) has no kind.
+//@ contract decoder.symbolExprKind (expr) (result)
+//@   ensures [C14,name:traversal-is-a-reference] implies(typeis(expr, "*hclsyntax.ScopeTraversalExpr"), typeis(result, "lang.ReferenceExprKind"))
+//@   ensures [C14,name:literal-carries-the-type-of-its-value] implies(typeis(expr, "*hclsyntax.LiteralValueExpr"), typeis(result, "lang.LiteralTypeKind") && as(result, "lang.LiteralTypeKind").Type == as(expr, "*hclsyntax.LiteralValueExpr").Val.Type())
+//@   ghost plain after (*hclsyntax.TemplateExpr).IsStringLiteral#1 : callresult
+//@   ghost heredoc after decoder.isMultilineStringLiteral#1 : callresult
+//@   assert before (*hclsyntax.TemplateExpr).IsStringLiteral#1 : [C14] arg0 == as(expr, "*hclsyntax.TemplateExpr")
+//@   assert before decoder.isMultilineStringLiteral#1 : [C14] arg0 == as(expr, "*hclsyntax.TemplateExpr")
+//@   ensures [C14,name:string-literal-is-a-string] implies(typeis(expr, "*hclsyntax.TemplateExpr") && (plain || heredoc), typeis(result, "lang.LiteralTypeKind") && as(result, "lang.LiteralTypeKind").Type == cty.String)
+//@   ensures [C14,name:interpolated-template-has-no-kind] implies(typeis(expr, "*hclsyntax.TemplateExpr") && !plain && !heredoc, result == nil)
+//@   ensures [C14,name:list-literal] implies(typeis(expr, "*hclsyntax.TupleConsExpr"), typeis(result, "lang.TupleConsExprKind"))
+//@   ensures [C14,name:object-literal] implies(typeis(expr, "*hclsyntax.ObjectConsExpr"), typeis(result, "lang.ObjectConsExprKind"))
+//@   ensures [C14,name:no-kind-for-anything-else] implies(!typeis(expr, "*hclsyntax.ScopeTraversalExpr") && !typeis(expr, "*hclsyntax.LiteralValueExpr") && !typeis(expr, "*hclsyntax.TemplateExpr") && !typeis(expr, "*hclsyntax.TupleConsExpr") && !typeis(expr, "*hclsyntax.ObjectConsExpr"), result == nil)
+
+// ---- C15: the diagnostics of a file are what walking the root body of THAT file yields, with the path's
+// ---- schema and all of the path's validators; nothing is walked (and an error is returned, with no
+// ---- diagnostics) without a schema, for an unknown file or a file that is not native syntax; without
+// ---- validators there is nothing to report.
+//@ contract (*decoder.PathDecoder).ValidateFile (d, ctx, filename) (result, err)
+//@   requires d != nil && d.pathCtx != nil
+//@   ghost walked after walker.Walk#1 : true
+//@   ghost found after walker.Walk#1 : callresult
+//@   assert before walker.Walk#1 : [C15,name:root-body-of-the-named-file] haskey(d.pathCtx.Files, filename) && as(arg1, "*hclsyntax.Body") == as(d.pathCtx.Files[filename].Body, "*hclsyntax.Body")
+//@   assert before walker.Walk#1 : [C15,C16,name:against-the-schema-of-the-path] as(arg2, "*schema.BodySchema") == d.pathCtx.Schema && d.pathCtx.Schema != nil
+//@   assert before walker.Walk#1 : [C15,name:with-all-validators-of-the-path] typeis(arg3, "decoder.validationWalker") && as(arg3, "decoder.validationWalker").validators == d.pathCtx.Validators
+//@   ensures [C15,name:diagnostics-are-the-ones-the-walk-found] implies(walked, err == nil && result == found)
+//@   ensures [C15,name:walked-unless-there-is-a-reason-not-to] implies(err == nil && len(d.pathCtx.Validators) > 0, walked)
+//@   ensures [C15,name:no-schema-is-an-error] implies(d.pathCtx.Schema == nil, err != nil)
+//@   ensures [C15,name:unknown-file-is-an-error] implies(d.pathCtx.Schema != nil && len(d.pathCtx.Validators) > 0 && !haskey(d.pathCtx.Files, filename), err != nil)
+//@   ensures [C15] implies(!walked, len(result) == 0)
+
+// ---- C15: the diagnostics of a node are the concatenation of what every validator reports for that node
+// ---- with that node's schema - none is skipped, none is asked about another node.
+//@ contract (decoder.validationWalker).Visit (vw, ctx, node, nodeSchema) (ctx2, diags)
+//@   assert before invoke:Visit#1 : [C15,name:same-node-and-schema-for-every-validator] arg1 == node && arg2 == nodeSchema
+//@   ghost reported after invoke:Visit#1 : len(vDiags)
+//@   loop 1 iter [C15,name:all-diagnostics-of-a-validator-are-kept] len(diags) == old(len(diags)) + reported
+//@   loop 1 iter [C15,name:every-validator-of-the-walker-in-turn] v == vw.validators[rangeindex]
+//@   loop 1 invariant [C15] implies(rangeindex == -1, len(diags) == 0)
+//@   ensures [C15,name:no-validators-no-diagnostics] implies(len(vw.validators) == 0, len(diags) == 0)
+//@   ensures [C15] pastloop(1)
+
+// ---- C16 (and every position query): the body a query works on is the root body of the file handed in -
+// ---- native syntax only - and is returned exactly when the position lies in it or on one of its ends.
+//@ contract (*decoder.PathDecoder).bodyForFileAndPos (d, name, f, pos) (body, err)
+//@   ensures [C16,C07,C03] (err == nil) == (body != nil)
+//@   ensures [C16,C07,name:the-root-body-of-that-file] implies(err == nil, typeis(f.Body, "*hclsyntax.Body") && body == as(f.Body, "*hclsyntax.Body"))
+//@   ensures [C16,C07,name:only-for-a-position-inside-or-at-the-ends] implies(err == nil, typeis(f.Body, "*hclsyntax.Body") && (as(f.Body, "*hclsyntax.Body").Range().ContainsPos(pos) || posEqual(as(f.Body, "*hclsyntax.Body").Range().Start, pos) || posEqual(as(f.Body, "*hclsyntax.Body").Range().End, pos)))
+//@   ensures [C16,C07,name:always-for-such-a-position] implies(typeis(f.Body, "*hclsyntax.Body") && (as(f.Body, "*hclsyntax.Body").Range().ContainsPos(pos) || posEqual(as(f.Body, "*hclsyntax.Body").Range().Start, pos) || posEqual(as(f.Body, "*hclsyntax.Body").Range().End, pos)), err == nil)
+
+// ---- C03/C14: the files of a path are enumerated in sorted order (the map's iteration order is never seen)
+// ---- and every loaded file is listed: one name per key of the file map, which is that key.
+//@ contract (*decoder.PathDecoder).filenames (d) (result)
+//@   loop 1 iter [C03,C14,name:one-entry-per-file-which-is-its-name] len(files) == old(len(files)) + 1 && files[len(files)-1] == filename
+//@   ensures d != nil && d.pathCtx != nil
+//@ loop-complete (*decoder.PathDecoder).filenames 1 C03,C14
+//@ returns-sorted (*decoder.PathDecoder).filenames C03,C14
+
+// ---- C16: the links of a file are the links of the root body of that file, read with the schema of the
+// ---- path; without a schema (or for an unknown / non-native file) there is an error and no link.
+//@ contract (*decoder.PathDecoder).LinksInFile (d, filename) (result, err)
+//@   requires d != nil && d.pathCtx != nil
+//@   ghost collected after linksInBody#1 : true
+//@   assert before bodyForFileAndPos#1 : [C16,name:the-named-file] haskey(d.pathCtx.Files, filename) && arg2 == d.pathCtx.Files[filename] && arg3 == hcl.InitialPos
+//@   assert before linksInBody#1 : [C16,name:root-body-of-the-named-file] arg1 == as(d.pathCtx.Files[filename].Body, "*hclsyntax.Body")
+//@   assert before linksInBody#1 : [C16,name:read-with-the-schema-of-the-path] arg2 == d.pathCtx.Schema && d.pathCtx.Schema != nil
+//@   ensures [C16,name:no-links-without-reading-the-body] implies(!collected, err != nil && len(result) == 0)
+//@   ensures [C16,name:no-schema-is-an-error] implies(d.pathCtx.Schema == nil || !haskey(d.pathCtx.Files, filename), err != nil)
+
+// ---- C16: the URL of a documentation link is the schema's URL with the tracking parameters of the decoder
+// ---- context - each only when configured, each under its own name - and nothing else changed.
+//@ contract (*decoder.PathDecoder).docsURL (d, uri, utmContent) (u, err)
+//@   ghost srcSet after (net/url.Values).Set#1 : true
+//@   ghost medSet after (net/url.Values).Set#2 : true
+//@   ghost cntSet after (net/url.Values).Set#3 : true
+//@   ghost query after (net/url.Values).Encode#1 : callresult
+//@   assert before net/url.Parse#1 : [C16,name:the-url-of-the-schema] arg0 == uri
+//@   assert before (net/url.Values).Set#1 : [C16] arg1 == "utm_source" && arg2 == d.decoderCtx.UtmSource
+//@   assert before (net/url.Values).Set#2 : [C16] arg1 == "utm_medium" && arg2 == d.decoderCtx.UtmMedium
+//@   assert before (net/url.Values).Set#3 : [C16] arg1 == "utm_content" && arg2 == utmContent
+//@   ensures [C16] (err == nil) == (u != nil)
+//@   ensures [C16,name:tracking-parameters-only-when-configured] implies(err == nil, srcSet == (d.decoderCtx.UtmSource != "") && medSet == (d.decoderCtx.UtmMedium != "") && cntSet == d.decoderCtx.UseUtmContent)
+//@   ensures [C16,name:the-query-is-the-encoded-parameters] implies(err == nil, u.RawQuery == query)
